@@ -538,6 +538,11 @@ std::array<double, 12> stats_of(const tensor2d_t& values, tensor_size_t row)
     for (tensor_size_t i = 0; i < v.size(); ++i) s += v(i);
     r[0] = v.size() > 0 ? s / static_cast<double>(v.size()) : r[0];
     r[2] = static_cast<double>(v.size());
+    // the deviation the library reports is sqrt(population variance / (n - 1)); recomputed here with the two-pass formula
+    // (never negative under the root), independently of tensor_t::variance()
+    double q = 0;
+    for (tensor_size_t i = 0; i < v.size(); ++i) q += (v(i) - r[0]) * (v(i) - r[0]);
+    r[1] = v.size() > 1 ? std::sqrt(q / static_cast<double>(v.size()) / static_cast<double>(v.size() - 1)) : 0.0;
     return r;
 }
 std::array<double, 12> stats_of(const ml::stats_t& s)
@@ -571,6 +576,46 @@ bool fragile_outputs(const tensor4d_t& outputs)
     return false;
 }
 
+// outputs of a boosting model (bias + every weak learner's prediction) together with the per-output sum of the absolute
+// contributions: when that sum exceeds the output by orders of magnitude (diverged fits: huge terms cancelling), any
+// re-association of the sum (merged learners, fold averaging) changes the output itself and nothing can be compared
+struct gbout_t
+{
+    tensor4d_t out, mag;
+    bool       ill{false};
+};
+long g_ill = 0, g_sd_skipped = 0, g_nan_fails = 0;
+long g_nan_fit_fails = 0;
+void fail_nan(const std::string& msg, bool from_fit = false)
+{
+    ++g_fails;
+    ++g_nan_fails;
+    if (from_fit) ++g_nan_fit_fails;
+    // separate print budgets: the constant-vector cases come first and must not hide the fitted folds
+    if (from_fit ? g_nan_fit_fails <= 10 : g_nan_fails - g_nan_fit_fails <= 3) std::printf("FAIL %s\n", msg.c_str());
+}
+gbout_t gb_outputs(const dataset_t& dataset, const indices_t& all, const tensor1d_t& bias, const rwlearners_t& ws)
+{
+    gbout_t r;
+    r.out = tensor4d_t(cat_dims(all.size(), dataset.target_dims()));
+    r.mag = tensor4d_t(cat_dims(all.size(), dataset.target_dims()));
+    r.out.reshape(all.size(), -1).matrix().rowwise() = bias.vector().transpose();
+    r.mag.reshape(all.size(), -1).matrix().rowwise() = bias.vector().transpose().cwiseAbs();
+    tensor4d_t tmp(cat_dims(all.size(), dataset.target_dims()));
+    for (const auto& w : ws)
+    {
+        w->predict(dataset, all, r.out.tensor());
+        tmp.zero();
+        w->predict(dataset, all, tmp.tensor());
+        for (tensor_size_t i = 0; i < tmp.size(); ++i) r.mag.data()[i] += std::fabs(tmp.data()[i]);
+    }
+    // diverged model (targets are of unit scale): contributions beyond 1e6, possibly cancelling inside a single learner
+    // (w * x + b with |w|, |b| ~ 1e87 was observed with the exponential loss on separable data)
+    for (tensor_size_t i = 0; i < r.out.size(); ++i)
+        if (!(r.mag.data()[i] <= 1e6) || !(r.mag.data()[i] <= 1e4 * (1.0 + std::fabs(r.out.data()[i])))) r.ill = true;
+    return r;
+}
+
 struct fitctx_t
 {
     std::string what; // replayable description of the configuration
@@ -585,13 +630,37 @@ void check_stats(const fitctx_t& ctx, const std::string& where, const ml::stats_
     const auto b = stats_of(recomputed, row);
     if (row == 0 && ctx.classification && fragile) return;
     static const char* names[12] = {"mean", "stdev", "count", "per01", "per05", "per10", "per20", "per50", "per80", "per90", "per95", "per99"};
+    // the deviation is compared on every vector, constant ones included. tensor_t::variance() is the one-pass E[x^2] - mean^2 (clamped
+    // at 0 since b0b87e4): its absolute error is <= n u max|x|^2, hence |stdev error| <= sqrt(u n / (n - 1)) max|x| ~ 1.5e-8 max|x|.
+    // A NaN deviation stored for finite per-sample values is the defect repaired by b0b87e4 (reported with its own tag); values beyond
+    // 1e150 (squares overflow) are not comparable.
+    double maxabs = 0.0;
+    bool   finite = true;
+    for (tensor_size_t i = 0; i < recomputed.size<1>(); ++i)
+    {
+        finite = finite && std::isfinite(recomputed(row, i));
+        maxabs = std::max(maxabs, std::fabs(recomputed(row, i)));
+    }
+    const bool sd_comparable = finite && maxabs <= 1e150;
+    if (!sd_comparable) ++g_sd_skipped;
     for (size_t i = 0; i < 12; ++i)
-        if (!close_to(a[i], b[i], i == 1 ? 1e-7 : 1e-9))
+    {
+        if (i == 1)
         {
-            fail("FIT stored statistic differs from the recomputation: " + where + " " + (row == 0 ? "errors." : "losses.") + names[i] +
-                 " stored=" + vh::hexf(a[i]) + " recomputed=" + vh::hexf(b[i]) + " ;; " + ctx.what);
-            return;
+            if (!sd_comparable) continue;
+            if (std::isnan(a[1]))
+            {
+                fail_nan("STDEVNAN stored m_stdev is NaN although the " + std::to_string(recomputed.size<1>()) + " per-sample values of a fitted fold are finite (|x| <= " +
+                         vh::hexf(maxabs) + ", recomputed deviation " + vh::hexf(b[1]) + "): " + where + " " + (row == 0 ? "errors" : "losses") + " ;; " + ctx.what, true);
+                return;
+            }
+            if (std::fabs(a[1] - b[1]) <= 2e-7 * (1.0 + maxabs) || close_to(a[1], b[1], 1e-7)) continue;
         }
+        else if (close_to(a[i], b[i], 1e-9)) continue;
+        fail("FIT stored statistic differs from the recomputation: " + where + " " + (row == 0 ? "errors." : "losses.") + names[i] +
+             " stored=" + vh::hexf(a[i]) + " recomputed=" + vh::hexf(b[i]) + " ;; " + ctx.what);
+        return;
+    }
 }
 
 // the property's reading of a stored (train error, validation error) history: replaying it, the monitor must not have
@@ -630,6 +699,8 @@ struct data_t
     std::string                       desc;
     bool                              classification{false};
 };
+
+bool g_force_constant_target = false; // next dataset: all targets equal (every fold then reports equal per-sample values)
 
 data_t make_data(vh::rng_t& rng, bool classification, bool for_linear)
 {
@@ -671,6 +742,10 @@ data_t make_data(vh::rng_t& rng, bool classification, bool for_linear)
         if (nclass > 0) y += 0.7 * cols[nscalar][s];
         t[s] = classification ? (y > b ? 1.0 : 0.0) : y;
     }
+    const bool constant_target = !classification && (g_force_constant_target || rng.range(0, 15) == 0);
+    g_force_constant_target    = false;
+    if (constant_target)
+        for (auto& y : t) y = 0.1 * static_cast<double>(rng.range(1, 30));
     if (classification) features.push_back(feature_t{"target"}.sclass(strings_t{"neg", "pos"}));
     else features.push_back(feature_t{"target"}.scalar(feature_type::float64));
     cols.push_back(t);
@@ -682,7 +757,7 @@ data_t make_data(vh::rng_t& rng, bool classification, bool for_linear)
     d.dataset->add<scalar_identity_generator_t>();
     d.classification = classification;
     d.desc = "data(n=" + std::to_string(n) + ",scalar=" + std::to_string(nscalar) + ",sclass=" + std::to_string(nclass) +
-             ",noise=" + vh::hexf(noise) + (classification ? ",binary" : ",regression") + ")";
+             ",noise=" + vh::hexf(noise) + (classification ? ",binary" : (constant_target ? ",constant-target" : ",regression")) + ")";
     return d;
 }
 
@@ -714,7 +789,7 @@ ml::params_t make_fit_params(vh::rng_t& rng, std::string& desc, rsplitter_t& spl
 
 void fit_gboost(vh::rng_t& rng)
 {
-    const bool classification = rng.range(0, 3) == 0;
+    const bool classification = (rng.range(0, 3) == 0) && !g_force_constant_target;
     auto       data           = make_data(rng, classification, false);
     const auto& dataset       = *data.dataset;
     const char* rlosses[] = {"mse", "mae", "cauchy"};
@@ -790,7 +865,7 @@ void fit_gboost(vh::rng_t& rng)
     const auto trials  = result.trials();
     if (static_cast<size_t>(folds) != splits.size()) fail("FIT folds " + std::to_string(folds) + " != splits ;; " + ctx.what);
 
-    std::vector<std::vector<tensor4d_t>> fold_outputs(static_cast<size_t>(trials));
+    std::vector<std::vector<gbout_t>> fold_outputs(static_cast<size_t>(trials));
     long rounds_total = 0, early = 0;
     for (tensor_size_t trial = 0; trial < trials; ++trial)
         for (tensor_size_t fold = 0; fold < folds; ++fold)
@@ -799,12 +874,18 @@ void fit_gboost(vh::rng_t& rng)
             const auto* pg = std::any_cast<gboost::result_t>(&result.extra(trial, fold));
             if (pg == nullptr) { fail("FIT no fold model stored for " + where + " ;; " + ctx.what); continue; }
             // the boosting model's prediction is its bias plus the sum of its weak learners' predictions
-            const auto outputs = predict_by(dataset, all, [&](tensor4d_t& o)
+            const auto gbo     = gb_outputs(dataset, all, pg->m_bias, pg->m_wlearners);
+            const auto& outputs = gbo.out;
+            fold_outputs[static_cast<size_t>(trial)].push_back(gbo);
+            const auto& st = pg->m_statistics;
+            const auto  R  = st.size<0>() - 1;
+            if (gbo.ill)
             {
-                o.reshape(all.size(), -1).matrix().rowwise() = pg->m_bias.vector().transpose();
-                for (const auto& w : pg->m_wlearners) w->predict(dataset, all, o.tensor());
-            });
-            fold_outputs[static_cast<size_t>(trial)].push_back(outputs);
+                // diverged fold model: only the exact, prediction-free checks
+                ++g_ill;
+                if (R >= 0 && R <= max_rounds && st.size<1>() == 8) check_history(ctx, where, st, eps, static_cast<size_t>(patience), splits[static_cast<size_t>(fold)].second.size());
+                continue;
+            }
             const auto values  = errors_losses(dataset, all, *loss, outputs);
             const auto fragile = classification && fragile_outputs(outputs);
             const auto& [tr, vd] = splits[static_cast<size_t>(fold)];
@@ -814,8 +895,6 @@ void fit_gboost(vh::rng_t& rng)
             check_stats(ctx, where + " valid", result.stats(trial, fold, ml::split_type::valid, ml::value_type::errors), vdv, 0, fragile);
             check_stats(ctx, where + " valid", result.stats(trial, fold, ml::split_type::valid, ml::value_type::losses), vdv, 1, fragile);
             // the statistics table keeps rounds 0..R, R = the monitor's round = number of weak learners kept
-            const auto& st = pg->m_statistics;
-            const auto  R  = st.size<0>() - 1;
             rounds_total += R;
             if (R < max_rounds) ++early;
             ++g_fit_checks;
@@ -852,15 +931,21 @@ void fit_gboost(vh::rng_t& rng)
 
     // final model: predicts the average of the per-fold models of the optimum trial; final statistics from its predictions
     const auto outputs = model.predict(dataset, all);
+    const auto gbfinal = gb_outputs(dataset, all, model.bias(), model.wlearners());
     {
         ++g_fit_checks;
         const auto& fo = fold_outputs[static_cast<size_t>(opt)];
-        for (tensor_size_t i = 0; i < outputs.size() && fo.size() == static_cast<size_t>(folds); ++i)
+        bool any_ill = gbfinal.ill;
+        for (const auto& o : fo) any_ill = any_ill || o.ill;
+        if (any_ill) ++g_ill;
+        for (tensor_size_t i = 0; i < outputs.size() && fo.size() == static_cast<size_t>(folds) && !any_ill; ++i)
         {
-            double s = 0.0;
-            for (const auto& o : fo) s += o.data()[i];
+            double s = 0.0, mag = 0.0;
+            for (const auto& o : fo) s += o.out.data()[i], mag += o.mag.data()[i];
             s /= static_cast<double>(folds);
-            if (!close_to(outputs.data()[i], s, 1e-9))
+            mag /= static_cast<double>(folds);
+            // tolerance relative to the size of the summed terms (the fold models' learners are re-associated by the merge)
+            if (!(std::fabs(outputs.data()[i] - s) <= 1e-9 * (1.0 + mag)) && !(std::isnan(outputs.data()[i]) && std::isnan(s)))
             {
                 fail("FIT final model output " + std::to_string(i) + " = " + vh::hexf(outputs.data()[i]) + " is not the average " + vh::hexf(s) +
                      " of the fold models of trial " + std::to_string(opt) + " ;; " + ctx.what);
@@ -868,11 +953,7 @@ void fit_gboost(vh::rng_t& rng)
             }
         }
         // bias + sum of weak learners (public accessors)
-        const auto manual = predict_by(dataset, all, [&](tensor4d_t& o)
-        {
-            o.reshape(all.size(), -1).matrix().rowwise() = model.bias().vector().transpose();
-            for (const auto& w : model.wlearners()) w->predict(dataset, all, o.tensor());
-        });
+        const auto& manual = gbfinal.out; // same order of summation as do_predict: compared tightly
         for (tensor_size_t i = 0; i < outputs.size(); ++i)
             if (!close_to(outputs.data()[i], manual.data()[i], 1e-12))
             {
@@ -880,6 +961,7 @@ void fit_gboost(vh::rng_t& rng)
                 break;
             }
     }
+    // (the final statistics come from predict() itself: same summation order, comparable even for diverged models)
     const auto values  = errors_losses(dataset, all, *loss, outputs);
     const auto fragile = classification && fragile_outputs(outputs);
     const auto selv    = select(values, samples);
@@ -901,7 +983,7 @@ void fit_gboost(vh::rng_t& rng)
 
 void fit_linear(vh::rng_t& rng)
 {
-    const bool classification = rng.range(0, 3) == 0;
+    const bool classification = (rng.range(0, 3) == 0) && !g_force_constant_target;
     auto       data           = make_data(rng, classification, true);
     const auto& dataset       = *data.dataset;
     const char* rlosses[] = {"mse", "mae", "cauchy"};
@@ -955,6 +1037,7 @@ void fit_linear(vh::rng_t& rng)
         it.batch(5);
         it.loop([&](tensor_range_t range, size_t, tensor2d_cmap_t flatten) { inputs.slice(range) = flatten; });
     }
+    bool       linear_ill = false; // set by linear_outputs when the terms of W x + b cancel by more than 4 orders of magnitude
     const auto linear_outputs = [&](const tensor2d_t& weights, const tensor1d_t& bias)
     {
         return predict_by(dataset, all, [&](tensor4d_t& o)
@@ -963,9 +1046,10 @@ void fit_linear(vh::rng_t& rng)
             for (tensor_size_t i = 0; i < all.size(); ++i)
                 for (tensor_size_t t = 0; t < tsize; ++t)
                 {
-                    double s = 0.0;
-                    for (tensor_size_t c = 0; c < weights.cols(); ++c) s += inputs(i, c) * weights(t, c);
+                    double s = 0.0, mag = std::fabs(bias(t));
+                    for (tensor_size_t c = 0; c < weights.cols(); ++c) s += inputs(i, c) * weights(t, c), mag += std::fabs(inputs(i, c) * weights(t, c));
                     o.data()[i * tsize + t] = s + bias(t);
+                    if (!(mag <= 1e6) || !(mag <= 1e4 * (1.0 + std::fabs(s + bias(t))))) linear_ill = true;
                 }
         });
     };
@@ -975,7 +1059,9 @@ void fit_linear(vh::rng_t& rng)
             const auto where = "trial " + std::to_string(trial) + "/" + std::to_string(trials) + " fold " + std::to_string(fold) + "/" + std::to_string(folds);
             const auto* pl = std::any_cast<linear::result_t>(&result.extra(trial, fold));
             if (pl == nullptr) { fail("FIT no fold model stored for " + where + " ;; " + ctx.what); continue; }
+            linear_ill = false;
             const auto outputs = linear_outputs(pl->m_weights, pl->m_bias);
+            if (linear_ill) { ++g_ill; continue; }
             const auto values  = errors_losses(dataset, all, *loss, outputs);
             const auto fragile = classification && fragile_outputs(outputs);
             const auto& [tr, vd] = splits[static_cast<size_t>(fold)];
@@ -1012,9 +1098,11 @@ void fit_linear(vh::rng_t& rng)
         if (!same) fail("FIT the refitted model in extra() is not the model's bias/weights ;; " + ctx.what);
     }
     const auto outputs = model->predict(dataset, all);
+    linear_ill = false;
     const auto manual  = linear_outputs(model->weights(), model->bias());
     ++g_fit_checks;
-    for (tensor_size_t i = 0; i < outputs.size(); ++i)
+    if (linear_ill) ++g_ill;
+    for (tensor_size_t i = 0; i < outputs.size() && !linear_ill; ++i)
         if (!close_to(outputs.data()[i], manual.data()[i], 1e-9))
         {
             fail("FIT predict() differs from weights * x + bias at output " + std::to_string(i) + " ;; " + ctx.what);
@@ -1074,12 +1162,52 @@ void slots_check(vh::rng_t& rng, int count)
     }
 }
 
+// a fold whose per-sample errors/losses are all equal (what a saturated or perfectly fitted fold reports): the stored
+// statistics must be mean = the value, deviation = 0 (within the one-pass tolerance, never NaN), count = n, percentiles = the value
+void const_stats_check(vh::rng_t& rng, int random_count)
+{
+    std::vector<std::pair<double, tensor_size_t>> cases;
+    for (tensor_size_t n = 2; n <= 12; ++n)
+        for (int k = 1; k <= 40; ++k) cases.emplace_back(static_cast<double>(k) / 10.0, n);
+    for (int i = 0; i < random_count; ++i)
+        cases.emplace_back((rng.unit() + 0.05) * std::pow(10.0, static_cast<double>(rng.range(-6, 6))), static_cast<tensor_size_t>(rng.range(2, 80)));
+    for (const auto& [c, n] : cases)
+    {
+        auto result = ml::result_t{param_spaces_t{}, 2};
+        result.add(tensor2d_t{1, 0});
+        tensor2d_t tr(2, n), vd(2, n);
+        const double vals[4] = {c, c / 3.0, -c, c * 7.0};
+        for (tensor_size_t i = 0; i < n; ++i) tr(0, i) = vals[0], tr(1, i) = vals[1], vd(0, i) = vals[2], vd(1, i) = vals[3];
+        result.store(0, 1, tr, vd);
+        result.store(tr);
+        const ml::stats_t got[6] = {result.stats(0, 1, ml::split_type::train, ml::value_type::errors),
+                                    result.stats(0, 1, ml::split_type::train, ml::value_type::losses),
+                                    result.stats(0, 1, ml::split_type::valid, ml::value_type::errors),
+                                    result.stats(0, 1, ml::split_type::valid, ml::value_type::losses),
+                                    result.stats(ml::value_type::errors), result.stats(ml::value_type::losses)};
+        const double want[6] = {vals[0], vals[1], vals[2], vals[3], vals[0], vals[1]};
+        for (int j = 0; j < 6; ++j)
+        {
+            ++g_fit_checks;
+            const auto& g = got[j];
+            const auto  what = "ml::result_t::store of " + std::to_string(n) + " equal per-sample values " + vh::hexf(want[j]) + " (folds=2, trial 0, fold 1, slot " + std::to_string(j) + ")";
+            if (std::isnan(g.m_stdev)) { fail_nan("STDEVNAN stored m_stdev is NaN for a constant vector: " + what); continue; }
+            if (!close_to(g.m_mean, want[j], 1e-12) || !(std::fabs(g.m_stdev) <= 2e-7 * (1.0 + std::fabs(want[j]))) || g.m_count != static_cast<double>(n) ||
+                !close_to(g.m_per50, want[j], 1e-12) || !close_to(g.m_per01, want[j], 1e-12) || !close_to(g.m_per99, want[j], 1e-12))
+                fail("CONST stored statistics of a constant vector are wrong: mean=" + vh::hexf(g.m_mean) + " stdev=" + vh::hexf(g.m_stdev) + " count=" +
+                     vh::hexf(g.m_count) + " per50=" + vh::hexf(g.m_per50) + " ;; " + what);
+        }
+    }
+}
+
 void fit_search(vh::rng_t& rng, bool thorough)
 {
+    const_stats_check(rng, thorough ? 3000 : 300);
     slots_check(rng, thorough ? 300 : 60);
     const int n = thorough ? 1500 : 60;
     for (int i = 0; i < n; ++i)
     {
+        g_force_constant_target = i == 1 || i == 2 || i == 4; // two boosting fits and a linear one on constant targets in every run
         if (i % 3 == 2) fit_linear(rng);
         else fit_gboost(rng);
     }
@@ -1107,8 +1235,8 @@ int main(int argc, char** argv)
     if (only == "all" || only == "fit") fit_search(rng, thorough);
 
     std::printf("DONE lines=%ld fails=%ld es_calls=%ld es_stops=%ld es_train_exits=%ld es_snapshots=%ld es_waits=%ld loops=%ld "
-                "fits=%ld fit_checks=%ld histories=%ld\n",
+                "fits=%ld fit_checks=%ld histories=%ld illconditioned_models_skipped=%ld stdev_not_comparable=%ld stdev_nan=%ld stdev_nan_in_fits=%ld\n",
                 g_lines, g_fails, g_es, g_es_stops, g_es_train_exits, g_es_accepts, g_es_waits, g_loops, g_fits, g_fit_checks,
-                g_hist);
+                g_hist, g_ill, g_sd_skipped, g_nan_fails, g_nan_fit_fails);
     return 0;
 }
